@@ -26,12 +26,14 @@ NOTE = ("trusted: Lean kernel; axioms propext/Classical.choice/Quot.sound only (
 # text after "theorems:" for properties added after the first manifest was written
 CLAIMS = {
     "C04": "theorems: send_appends_at_tail, drain_pops_head / async_loop_pops_head, raised_after_current, "
-           "send_during_processing_only_enqueues, rtc_structure, fifo_exactly_once(_queued/_async_clean) for runs that do "
-           "not reach the iteration bound, async_external_never_dropped / external_exactly_once_async / "
-           "fifo_exactly_once_async (async external events, no side condition on the bound: F30 repaired), "
-           "async_start_settles_before_loop (F42 repaired), mutual_exclusion_atomic (25). The model reproduces the "
-           "open defects of the code, each with a proved counterexample theorem (sync_burst_over_bound_loses_events, "
-           "mutual_exclusion_fails / flag_protocol_can_strand_an_event) and a known finding (F10)",
+           "send_during_processing_only_enqueues, rtc_structure, external events are never dropped by either bound "
+           "(sync: sync_external_never_dropped / external_exactly_once_sync / fifo_exactly_once without a bound "
+           "hypothesis, sync_cut_discards_only_raised; async: async_external_never_dropped / external_exactly_once_async "
+           "/ fifo_exactly_once_async), the full exactly-once statements incl. raised events under the bound hypothesis "
+           "(fifo_exactly_once_clean, fifo_exactly_once_async_clean), async_start_settles_before_loop, "
+           "mutual_exclusion_atomic. Findings F10 F30 F42 are fixed in the library; the unlocked re-entrancy flag "
+           "(mutual_exclusion_fails / flag_protocol_can_strand_an_event) is exhibited in the statement-granularity "
+           "model only",
     "C12": "theorems: restore_snap / restored_hist / restore_snap_equiv / snap_restore_snap / repeated_cycles (round "
            "trip), restore_rejects_nonobject / _unknown_state / _shape_* (corrupt snapshots give library errors), "
            "recorded_lists_sorted (unconditional: remembered lists of every reached state are in (depth, id) order), "
